@@ -388,3 +388,48 @@ Proof.
   pose proof (b64_body_roundtrip _ _ Hwf Ho) as R. unfold b64_body in Ho.
   unfold encode_body. now rewrite Ho.
 Qed.
+
+(* ---------- a file's body is encoded as its emitted Content-Transfer-Encoding header says ---------- *)
+(* For ANY header cache the File carries (a Content-Transfer-Encoding pre-set by the caller, or cached by
+   an earlier render, or none) and ANY File.Enc: the header cache after addFiles names an encoding v and
+   the body is encoded with exactly that encoding. *)
+Theorem file_cte_names_body : forall w a f,
+  (match f_enc f with Some e => enc_canon e | None => True end) ->
+  exists v, get_h h_cte (fst (file_hdrs w a f)) = Some v /\ enc_of_name v = snd (file_hdrs w a f).
+Proof.
+  intros w a f Hcan. unfold file_hdrs. cbv zeta. cbn [fst snd].
+  set (h1 := ensure h_ctype _ (f_hdr f)).
+  set (e := file_enc f h1).
+  set (h2 := ensure h_cte (enc_name e) h1).
+  assert (He : enc_name e <> [] /\ (get_h h_cte h1 = None -> enc_of_name (enc_name e) = e)).
+  { unfold e, file_enc. destruct (get_h h_cte h1) as [v|] eqn:E.
+    - split; [|intros; discriminate].
+      unfold enc_of_name. repeat match goal with |- context [if ?c then _ else _] => destruct c eqn:? end;
+        cbn; try (vm_compute; discriminate). now apply get_h_some_nonempty in E.
+    - destruct (f_enc f) as [e0|]; [destruct Hcan as [A B]|destruct gen_enc_b64_canon as [A B]]; split; auto. }
+  destruct He as [Hne Hcanon].
+  assert (G2 : get_h h_cte h2 = Some (match get_h h_cte h1 with Some v => v | None => enc_name e end))
+    by (unfold h2; now rewrite ensure_get_same by exact Hne).
+  set (h3 := match f_desc f with [] => h2 | d => ensure h_cdesc (word_encode w d) h2 end).
+  assert (G3 : get_h h_cte h3 = get_h h_cte h2) by (unfold h3; destruct (f_desc f); [reflexivity|now rewrite ensure_get_other by reflexivity]).
+  set (h4 := ensure h_cdisp _ h3).
+  assert (G4 : get_h h_cte h4 = get_h h_cte h3) by (unfold h4; now rewrite ensure_get_other by reflexivity).
+  set (h5 := if a then h4 else ensure h_cid _ h4).
+  assert (G5 : get_h h_cte h5 = get_h h_cte h4) by (unfold h5; destruct a; [reflexivity|now rewrite ensure_get_other by reflexivity]).
+  rewrite reencode_get_other by reflexivity. rewrite G5, G4, G3, G2.
+  destruct (get_h h_cte h1) as [v|] eqn:E.
+  - exists v. split; [reflexivity|]. unfold e, file_enc. now rewrite E.
+  - exists (enc_name e). split; [reflexivity|]. now apply Hcanon.
+Qed.
+
+(* … hence every file leaf of a rendered message: its header block is written from a cache whose
+   Content-Transfer-Encoding entry is v, and its body is encode_body (enc_of_name v) of the content *)
+Theorem file_leaf_body_as_announced : forall w a f fo,
+  (match f_enc f with Some e => enc_canon e | None => True end) ->
+  exists v, get_h h_cte (f_hdr (fst (file_headers w a f))) = Some v /\
+            file_leaf fo (file_headers w a f) =
+            Leaf (file_hdr fo (fst (file_headers w a f))) (encode_body (enc_of_name v) (f_prod f)).
+Proof.
+  intros w a f fo H. destruct (file_cte_names_body w a f H) as (v & Hv & He). exists v.
+  unfold file_headers, file_leaf. cbn [fst snd with_hdr f_hdr f_prod]. split; [exact Hv|]. now rewrite He.
+Qed.
